@@ -57,7 +57,9 @@ def builders():
         # (None = no fix time / date, what the parser stores for NULs)
         tm = [None, datetime.time(0, 0, 0), datetime.time(0, 0, 1), datetime.time(23, 59, 59), datetime.time(10, 0, 0),
               datetime.time(r.randrange(24), r.randrange(60), r.randrange(60)), datetime.time(r.randrange(24), r.randrange(60), r.randrange(60)),
-              datetime.time(r.randrange(24), r.randrange(60), r.randrange(60))][n % 8]
+              datetime.time(r.randrange(24), r.randrange(60), r.randrange(60)),
+              # a fix time as a receiver's clock gives it (datetime.now().time()): the six-character field holds its whole seconds
+              datetime.time(r.randrange(24), r.randrange(60), r.randrange(60), r.choice([1, 500000, 999999, r.randrange(1, 1000000)]))][n % 9]
         dt = [None, datetime.date(2000, 1, 1), datetime.date(2099, 12, 31), datetime.date(2010, 10, 10), datetime.date(r.randrange(2000, 2100), 2, 28),
               datetime.date(r.randrange(2000, 2100), r.randrange(1, 13), r.randrange(1, 29)),
               datetime.date(r.randrange(2000, 2100), r.randrange(1, 13), r.randrange(1, 29)),
@@ -211,6 +213,9 @@ def run(ctx):
                     # field equality is judged on what the three-character speed field can hold
                     v = g.speed_knots
                     g.speed_knots = 0.0 if round(v, 1) <= 0 else (round(v, 1) if round(v, 1) < 10 else float(min(round(v), 999)))
+                if g is not None and getattr(g, "greenwich_time", None) is not None and g.greenwich_time.microsecond:
+                    # ... and on what the six-character hhmmss field can hold
+                    g.greenwich_time = g.greenwich_time.replace(microsecond=0)
                 stage = "parse"
                 p = HDAP.from_bytes(gen.as_caller_bytes(fr, len(fr)))
                 owned.append(p)
